@@ -168,6 +168,7 @@ def check_c12(v: Verdict, t1_summary, n_unions, hash_seeds):
     cases, meta = [], []
     hist = {"unions": 0, "orders": 0, "creation_ok": 0, "creation_refused": 0, "roundtrips": 0, "wrong_class": 0, "literal_discriminator_unions": 0,
             "with_init_false": 0, "with_none": 0, "f23_hits": 0, "hash_seeds_compared": 0}
+    c12_rename_battery(v, hist)
     for ui, u in enumerate(sig):
         specs = u["specs"]
         hist["unions"] += 1
@@ -264,3 +265,63 @@ if __name__ == "__main__":
     sys.path.insert(0, os.environ.get("VERIF_REPO", "/repo") + "/src")
     s = outcome_signature(int(sys.argv[1]), int(sys.argv[2]))
     print(json.dumps([[o for o in u["orders"]] for u in s], sort_keys=True, default=str))
+
+
+def c12_rename_battery(v: Verdict, hist):
+    """systematic (no randomness): unions whose members have DIFFERENT numbers of attributes and whose registered structure hooks
+    carry override(rename=...) on the discriminating attribute (the default disambiguator reads the renames off the members'
+    hooks): every member order; a payload that is a member's own unstructured form must come back as that member (never as
+    another class), whenever the union hook could be created"""
+    import itertools
+    import attrs
+    from typing import Union
+    from cattrs import Converter
+    from cattrs.gen import make_dict_structure_fn, make_dict_unstructure_fn, override
+
+    def mk(name, fields):
+        return attrs.make_class(name, {n: (attrs.field(type=int) if d is None else attrs.field(type=int, default=d)) for n, d in fields})
+    worlds = [
+        ("small class + bigger class whose first attribute travels under the small class's second name",
+         [("RA", [("p", None), ("q", None)], {}), ("RB", [("p", None), ("r", 0), ("s", 0)], {"p": "q"})]),
+        ("bigger class renamed, listed after a smaller one",
+         [("RA", [("x", None)], {}), ("RB", [("y", None), ("z", 0), ("w", 0)], {"y": "why"})]),
+        ("three sizes, two renamed",
+         [("RA", [("a1", None)], {}), ("RB", [("b1", None), ("b2", 0)], {"b1": "bee"}), ("RC", [("c1", None), ("c2", 0), ("c3", 0)], {"c1": "cee"})]),
+        ("renamed onto another member's optional attribute name",
+         [("RA", [("k", None), ("opt", 0), ("more", 0)], {}), ("RB", [("j", None)], {"j": "jay"}), ("RC", [("m", None), ("opt", 0)], {"m": "em"})]),
+    ]
+    n = 0
+    for wname, specs in worlds:
+        classes = [(mk(nm, fs), fs, ren) for nm, fs, ren in specs]
+        for order in itertools.permutations(range(len(classes))):
+            for dv in (True, False):
+                conv = Converter(detailed_validation=dv)
+                for cl, _fs, ren in classes:
+                    if ren:
+                        ov = {k: override(rename=r) for k, r in ren.items()}
+                        conv.register_structure_hook(cl, make_dict_structure_fn(cl, conv, **ov))
+                        conv.register_unstructure_hook(cl, make_dict_unstructure_fn(cl, conv, **ov))
+                U = Union[tuple(classes[i][0] for i in order)]
+                desc = {"lane": "DIS/C12 rename battery", "world": wname, "member_order": [classes[i][0].__name__ for i in order],
+                        "renames": {classes[i][0].__name__: classes[i][2] for i in order if classes[i][2]}, "detailed_validation": dv}
+                try:
+                    conv.get_structure_hook(U)
+                except Exception:
+                    continue          # (whether creation succeeds may depend on the member order: finding F23)
+                for cl, fs, _ren in classes:
+                    for full in (False, True):
+                        kw = {nm: 3 + j for j, (nm, d) in enumerate(fs) if d is None or full}
+                        inst = cl(**kw)
+                        n += 1
+                        v.count(repr((desc, repr(inst))), True)
+                        raw = conv.unstructure(inst)
+                        try:
+                            res = conv.structure(dict(raw), U)
+                        except Exception as e:
+                            v.violation("a member's own unstructured form is rejected by the union (renamed discriminating attribute)",
+                                        {**desc, "instance": repr(inst), "payload": raw, "raised": repr(e)[:300]})
+                            continue
+                        if type(res) is not cl or res != inst:
+                            v.violation("disambiguation structured a payload as another class than the one it was unstructured from (renamed discriminating attribute)",
+                                        {**desc, "instance": repr(inst), "payload": raw, "structured": repr(res)})
+    hist["rename_battery_roundtrips"] = n
